@@ -46,6 +46,18 @@ type Contract struct {
 	// atomic steps it performs (rely/guarantee style interference contract).
 	Atomic     bool
 	Guarantees []*Clause
+	// Interference by other threads (rely side): Shared lists the locations other
+	// threads may write; before every call the function makes they are given
+	// arbitrary new values constrained only by the Rely clauses (two-state:
+	// old(e) is the value before the interference).
+	Shared []*Clause
+	Rely   []*Clause
+	// AtAtomic: ghost variable := expression, executed right after every atomic
+	// step the function performs (a snapshot of shared state at that instant)
+	AtAtomic []*GhostDef
+	// LockInv: monitor invariants - assumed after sync.Mutex.Lock, obliged
+	// before sync.Mutex.Unlock
+	LockInv []*Clause
 	// Defines: clauses naming the result by uninterpreted spec functions
 	// (assumed at call sites, not obliged in the body)
 	Defines []*Clause
@@ -135,7 +147,7 @@ func NewContractSet() *ContractSet {
 var clauseKw = map[string]bool{"requires": true, "ensures": true, "ensures!": true, "modifies": true, "panics_if": true,
 	"loop": true, "inline": true, "assumed": true, "mode": true, "arith": true, "func": true, "spec": true, "type": true,
 	"lemma": true, "lemma!": true, "pragma": true, "property": true, "package": true, "ghost": true, "replay": true,
-	"atomic": true, "guarantee": true, "defines": true, "on_panic": true,
+	"atomic": true, "guarantee": true, "shared": true, "rely": true, "at_atomic": true, "lockinv": true, "defines": true, "on_panic": true,
 	"ensures_panic": true, "nonil": true, "pure": true, "witness": true, "end": true, "uses": true, "nosafety": true, "trustframe": true, "maypanic": true, "funczero": true, "purecalls": true}
 
 var nameRe = regexp.MustCompile(`^([A-Za-z_][A-Za-z0-9_.]*):\s+`)
@@ -397,6 +409,54 @@ func (cs *ContractSet) LoadFile(path, pkgPath string) {
 				cl.Name = strconv.Itoa(len(cur.Guarantees))
 			}
 			cur.Guarantees = append(cur.Guarantees, cl)
+		case "shared":
+			if cur == nil {
+				bad(fmt.Errorf("shared outside func"))
+				continue
+			}
+			for _, part := range splitTop(ll.rest) {
+				cl, err := parseClause(part, ll.line, false)
+				if err != nil {
+					bad(err)
+					continue
+				}
+				cur.Shared = append(cur.Shared, cl)
+			}
+		case "rely", "lockinv":
+			if cur == nil {
+				bad(fmt.Errorf("%s outside func", ll.kw))
+				continue
+			}
+			cl, err := parseClause(ll.rest, ll.line, true)
+			if err != nil {
+				bad(err)
+				continue
+			}
+			if ll.kw == "rely" {
+				cur.Rely = append(cur.Rely, cl)
+			} else {
+				if cl.Name == "" {
+					cl.Name = strconv.Itoa(len(cur.LockInv))
+				}
+				cur.LockInv = append(cur.LockInv, cl)
+			}
+		case "at_atomic":
+			// at_atomic ghostvar = expr
+			if cur == nil {
+				bad(fmt.Errorf("at_atomic outside func"))
+				continue
+			}
+			eq := strings.Index(ll.rest, "=")
+			if eq < 0 {
+				bad(fmt.Errorf("at_atomic ghostvar = expr"))
+				continue
+			}
+			e, err := ParseCExpr(strings.TrimSpace(ll.rest[eq+1:]))
+			if err != nil {
+				bad(err)
+				continue
+			}
+			cur.AtAtomic = append(cur.AtAtomic, &GhostDef{Name: strings.TrimSpace(ll.rest[:eq]), Expr: e, Src: strings.TrimSpace(ll.rest[eq+1:])})
 		case "loop":
 			if cur == nil {
 				bad(fmt.Errorf("loop outside func"))
